@@ -383,14 +383,30 @@ func runC03(c *Ctx) {
 	// R03b
 	if fi := c.Func("R03b", pCmdlog, "", "fmtPlan"); fi != nil {
 		dump := false
-		ast.Inspect(fi.Decl.Body, func(m ast.Node) bool {
-			if as, ok := m.(*ast.AssignStmt); ok && len(as.Lhs) == 1 && len(as.Rhs) == 1 {
-				if se, ok := as.Lhs[0].(*ast.SelectorExpr); ok && se.Sel.Name == "Mode" && strings.HasSuffix(types.ExprString(as.Rhs[0]), "PlanModeDump") {
-					dump = true
+		// fmtPlan itself, or a package-local function it calls to build its plan option
+		var look func(g *FuncInfo, depth int)
+		look = func(g *FuncInfo, depth int) {
+			ast.Inspect(g.Decl.Body, func(m ast.Node) bool {
+				switch x := m.(type) {
+				case *ast.AssignStmt:
+					if len(x.Lhs) == 1 && len(x.Rhs) == 1 {
+						if se, ok := x.Lhs[0].(*ast.SelectorExpr); ok && se.Sel.Name == "Mode" && strings.HasSuffix(types.ExprString(x.Rhs[0]), "PlanModeDump") {
+							dump = true
+						}
+					}
+				case *ast.CallExpr:
+					if depth < 2 {
+						if fn := calleeOf(g.Info(), x); fn != nil && fn.Pkg() != nil && fn.Pkg().Path() == pCmdlog {
+							if hf := c.FuncInfoOf(fn); hf != nil && hf.Decl.Body != nil && hf.Decl != g.Decl {
+								look(hf, depth+1)
+							}
+						}
+					}
 				}
-			}
-			return true
-		})
+				return !dump
+			})
+		}
+		look(fi, 0)
 		c.Check("R03b", "fmtPlan|plans in dump mode", fi.Decl.Pos(), dump, "the SQL export must be planned with PlanModeDump")
 		planned := nodeHasCall(fi.Info(), fi.Decl.Body, func(fn *types.Func, _ *ast.CallExpr) bool { return fn.Name() == "PlanChanges" }) != nil
 		c.Check("R03b", "fmtPlan|calls PlanChanges with its changes", fi.Decl.Pos(), planned, "fmtPlan must plan the given changes")
